@@ -422,6 +422,17 @@ def run(doc, log):
         hi = vr.choice([1.5, 2.0, 3.0])
         lam = np.unique(np.round(np.concatenate([np.linspace(lo, 1.0, vr.choice([2, 4, 8])), np.linspace(1.0, hi, vr.choice([3, 5, 9]))]), 6))
         cases = (("uniaxial", "ux", lambda l: ("uniaxial", (l,))), ("planar", "ps", lambda l: ("biaxial", (l, 1.0))), ("biaxial", "bx", lambda l: ("biaxial", (l, l))))
+        if pick(doc["seed"], "coarse-preview", 2) == 0:
+            # earlier in the process: a quick, coarse preview of ANOTHER material with loose options for
+            # the lateral-stretch solver - the options of one call belong to that call
+            pv = fem.NeoHooke(mu=1.0, bulk=3.0).view()
+            lam_ = np.linspace(0.8, 1.6, 4)
+            try:
+                for meth in (pv.uniaxial, pv.planar, pv.biaxial):
+                    meth(lam_, tol=1e-2)
+            except (ValueError, TypeError):
+                pass
+            log.count("coarse-preview-of-another-material")
         for name, key, model in cases:
             try:
                 ref = []
